@@ -1,3 +1,4 @@
+import NA.Spec.LinuxNeg
 import NA.Model.Linux
 import NA.Spec.LinuxOracle
 import NA.Proofs.C05Final
@@ -202,6 +203,7 @@ def answer (line : String) : String :=
       | .ok ch =>
         let (r, c, rest) := ch.show
         joinFS [s "OK", joinLS r, joinLS c, joinLS rest]
+    else if c = s "sem" then NA.Linux.Spec.semCompare dev spoc
     else s "bad-input"
   | [c, arg] =>
     if c = s "norm" then
